@@ -110,6 +110,10 @@ def main():
         res["suites"] = suites
         open(dpath, "w").write(demo)
         rc1, out1 = sh([GO, "test", "-count=1", "-run", "^(%s)$" % names, "."], cwd=os.path.join(wt, dd))
+        if rc1 == 0:
+            # some demonstrations (data races) only fail under the race detector
+            rc1, out1 = sh([GO, "test", "-race", "-count=1", "-run", "^(%s)$" % names, "."], cwd=os.path.join(wt, dd))
+            res["demo_needs_race_detector"] = rc1 != 0
         res["demo_with_patch_fail"] = rc1 != 0
         res["demo_with_patch_tail"] = out1[-600:]
         os.remove(dpath)
